@@ -237,7 +237,10 @@ def run_e2e(case, stats, viol):
     sample = None
     for k in range(case['count']):
         prefix = 'vwf%d_%d' % (case['seed'], k)
-        layers = gen.random_layer_graph(rng, nmax=4, nmin=2)
+        # (four graphs in ten have instance layers with names that are no
+        # identifiers - among them names that differ only where one has a
+        # dot: db.Layer / db_Layer / dbxLayer)
+        layers = gen.random_layer_graph(rng, nmax=4, nmin=2, p_exotic=0.4)
         tbl = {}
         for ls in layers + [None]:
             if ls is not None and rng.random() < 0.2:
@@ -361,9 +364,16 @@ def run_e2e(case, stats, viol):
         try:
             nv = len(ztr_monitor.VIOLATIONS)
             ev0 = ztr_monitor.COUNTERS.get('eval.accept', 0)
+            par = []
+            if layers and rng.random() < 0.25:
+                # the layers in subprocesses: each of them applies the
+                # filters again and picks its own layer by name
+                par = ['-j', str(rng.randint(2, 3))]
+                stats['e2e_runs_with_layer_subprocesses'] = \
+                    stats.get('e2e_runs_with_layer_subprocesses', 0) + 1
             r = runcase.run_inproc(
-                ['--path', root] + extra_argv + argv_without_positional(
-                    opts, positional) + positional,
+                ['--path', root] + extra_argv + par +
+                argv_without_positional(opts, positional) + positional,
                 os.path.join(root, 'world.json'),
                 os.path.join(root, 'trace.jsonl'), purge=(prefix,))
             stats['e2e_runs'] += 1
